@@ -159,7 +159,7 @@ class Run:
         res["transitions"] = int(m.group(1)) if m else 0
         m = re.search(r"depth of the complete state graph search is (\d+)", out)
         res["depth"] = int(m.group(1)) if m else 0
-        res["ok"] = "No error has been found" in out and p.returncode == 0
+        res["ok"] = ("No error has been found" in out or (simulate and "traces generated" in out and "Error:" not in out)) and p.returncode == 0
         res["violated"] = re.findall(r"Invariant (\S+) is violated|Action property (\S+) is violated|Temporal properties were violated", out)
         if p.returncode == 124:
             raise Infra("TLC timeout on %s/%s" % (module, cfg))
